@@ -1,7 +1,9 @@
 package imgworld
 
 import (
+	"context"
 	"fmt"
+	"sync"
 
 	"pgregory.net/rapid"
 )
@@ -68,3 +70,44 @@ func genChunk(rt *rapid.T, label string) int {
 }
 
 func tierThorough(tier string) bool { return tier == "thorough" }
+
+// deadlineCtx is a context that ends, when fire is called, the way an expired deadline ends one:
+// Err() reports context.DeadlineExceeded.  (A real deadline cannot be made to expire at a chosen
+// seam event.)
+type deadlineCtx struct {
+	context.Context
+	done  chan struct{}
+	mu    sync.Mutex
+	fired bool
+}
+
+func newDeadlineCtx() *deadlineCtx {
+	return &deadlineCtx{Context: context.Background(), done: make(chan struct{})}
+}
+func (c *deadlineCtx) Done() <-chan struct{} { return c.done }
+func (c *deadlineCtx) Err() error {
+	c.mu.Lock()
+	defer c.mu.Unlock()
+	if c.fired {
+		return context.DeadlineExceeded
+	}
+	return nil
+}
+func (c *deadlineCtx) fire() {
+	c.mu.Lock()
+	defer c.mu.Unlock()
+	if !c.fired {
+		c.fired = true
+		close(c.done)
+	}
+}
+
+// cancellable returns a context and the function that ends it: by cancellation, or the way an
+// expired deadline does.
+func cancellable(deadline bool) (context.Context, func()) {
+	if deadline {
+		dc := newDeadlineCtx()
+		return dc, dc.fire
+	}
+	return context.WithCancel(context.Background())
+}
